@@ -288,7 +288,7 @@ def stepC03 (s : DS) (fs : List String) : DS × String :=
     match mergeBatches s.stack with
     | .ok m => (s', (viewOf m false).canon true)
     | .error .noBatches => (s', "err:no-batches")
-    | .error .typePanic => (s', "err:type-panic")
+    | .error .typeConflict => (s', "err:type-conflict")
   | ["sort"] =>
     match s.stack with
     | [b] =>
@@ -302,7 +302,7 @@ def stepC03 (s : DS) (fs : List String) : DS × String :=
   | ["flush"] =>
     let s' := { s with stack := [] }
     match flushTask s.stack with
-    | .error (.merge .typePanic) => (s', "err:type-panic")
+    | .error (.merge .typeConflict) => (s', "err:type-conflict")
     | .error (.merge _) => (s', "err:merge")
     | .error .noTime => (s', "err:no-time")
     | .ok files =>
